@@ -137,6 +137,9 @@ def find_window(cls) -> Window:
             cmp = node.test
             if any(isinstance(op, ast.In) for op in cmp.ops) and any(_mentions_known(c) for c in cmp.comparators):
                 tests.append(node.lineno + off)
+        if isinstance(node, ast.Call) and isinstance(node.func, ast.Attribute) and node.func.attr == "get" and _mentions_known(node.func.value):
+            # the lookup form of the membership test:  known = cls._known.get(key)
+            tests.append(node.lineno + off)
         if isinstance(node, ast.Assign):
             if any(isinstance(t, ast.Subscript) and _mentions_known(t.value) for t in node.targets):
                 inserts.append(node.lineno + off)
@@ -144,6 +147,7 @@ def find_window(cls) -> Window:
             inserts.append(node.lineno + off)
         if isinstance(node, ast.Return):
             returns.append(node.lineno + off)
+    tests = sorted(set(tests))
     if len(tests) != 1 or not inserts:
         raise HarnessDeadlock(
             f"cannot locate the check-then-insert window of {cls.__name__}.__new__ "
